@@ -249,13 +249,20 @@ def _immutable(cfg):
   return new
 
 
+def _as_partial(cfg):
+  """An immutable fiddler whose result has another Buildable type."""
+  new = fdl.cast(fdl.Partial if isinstance(cfg, fdl.Config) else fdl.Config, cfg)
+  new.log = new.log + [("as_partial",)]
+  return new
+
+
 def _push(cfg, items=()):
   """Stores the argument object itself in the configuration."""
   cfg.stack = list(cfg.__arguments__.get("stack", [])) + [items]
 
 
 for _n, _f in (("base", _base), ("base2", _base2), ("double", _double), ("add", _add),
-               ("immutable", _immutable), ("push", _push)):
+               ("immutable", _immutable), ("push", _push), ("as_partial", _as_partial)):
   setattr(FLAGMOD, _n, _f)
 sys.modules["verif_flag_module"] = FLAGMOD
 
@@ -314,8 +321,10 @@ def directive_case(rng, res, dstream, intern, label):
       elif q < 0.8:
         k = rng.randint(1, 4)
         dirs.append((f"fiddler:add(k={k})", ("add", k)))
-      else:
+      elif q < 0.9:
         dirs.append(("fiddler:immutable", ("immutable",)))
+      else:
+        dirs.append(("fiddler:as_partial", ("as_partial",)))
   res.evaluations += 1
   res.count("directive-seq")
   flag = fdl_flags.FiddleFlag(name="cfg", default_module=FLAGMOD, default=None,
@@ -365,9 +374,11 @@ def directive_case(rng, res, dstream, intern, label):
       _add(exp, d[1])
     elif d[0] == "immutable":
       exp = _immutable(exp)
+    elif d[0] == "as_partial":
+      exp = _as_partial(exp)
   replay = {"label": label, "directives": [d for d, _ in dirs]}
   if err is None:
-    if outcome[0] != "ok" or not (outcome[1] == exp) or outcome[1].log != exp.log:
+    if outcome[0] != "ok" or not (outcome[1] == exp) or outcome[1].log != exp.log or type(outcome[1]) is not type(exp):
       res.failures.append(Failure(None, f"C18 {label}: directives were not applied strictly in order",
                                   dict(replay, got=repr(outcome[1])[:300], want=repr(exp)[:300])))
   else:
